@@ -108,6 +108,10 @@ func runC06(c *Ctx) {
 	if u := c.unit("C06-S3", "wal.ValidSnapshotEntries"); u != nil {
 		// a snapshot marker is kept only when it is at or below the committed index recorded in the WAL
 		r.Guard("C06-S3", u, an.StoreTerm("snaps[n]"), "!(state.Commit < s.Index)", an.GuardOpts{Min: 1})
+		// a torn tail (EOF / unexpected EOF / oversized garbage length) is tolerated here: the repair happens when the WAL is opened
+		r.Guard("C06-S3", u, an.Return().Where("decode error passed on", func(u *an.Unit, s *an.Site) bool {
+			return len(s.Ret.Results) == 2 && u.C.Term(s.Ret.Results[1]) == "err" && u.C.Term(s.Ret.Results[0]) == "nil" && s.Pos > u.Match(an.Call("wal.newDecoder"))[0].Pos
+		}), "!(err == io.EOF) && !(err == io.ErrUnexpectedEOF)", an.GuardOpts{Min: 1})
 		r.Returns("C06-S3", u, []an.ReturnClass{
 			{Name: "error", Match: an.ErrorReturn},
 			{Name: "filtered list", Match: func(u *an.Unit, s *an.Site) bool {
